@@ -427,6 +427,19 @@ func (p *Path) freshVar(prefix string, s Sort) *Term {
 // ---------- globals & package init ----------
 
 func (p *Path) globalAddr(g *ssa.Global) *Value {
+	// the sentinels the os file model answers with (whatever the packages' initialisers stored)
+	if g.Pkg != nil && (g.Pkg.Pkg.Path() == "os" || g.Pkg.Pkg.Path() == "io/fs") {
+		switch g.Name() {
+		case "ErrNotExist":
+			v := new(Value)
+			*v = p.enoent()
+			return v
+		case "ErrExist":
+			v := new(Value)
+			*v = p.eexist()
+			return v
+		}
+	}
 	if v, ok := p.globals[g]; ok {
 		return v
 	}
